@@ -14,6 +14,10 @@ impl LZ10CompressionFormat {
     }
 
     pub fn compress(&self, bytes: &[u8]) -> Result<Vec<u8>> {
+        // The header stores the decompressed size in 24 bits.
+        if bytes.len() > 0xFFFFFF {
+            return Err(CompressionError::InputTooLarge(bytes.len(), "LZ10".to_owned()));
+        }
         let mut buf: Vec<u8> = Vec::new();
         buf.push(0x10);
         buf.push((bytes.len() & 0xFF) as u8);
